@@ -218,6 +218,7 @@ def formula(rep, res, entry, want_deg, out_unit, table, dim_I, dim_E, fname, ru,
     v = res.value.flat()
     d = v.tag("deg")
     where = res.fn.loc()
+    R.rule_dtype_casts(rep, res, entry)
     rep.check("R-QTY", "exponents of spectrum, wavelength, h, c, N_A", None if d is None else {k: x for k, x in d.items() if x} == want_deg,
               where=where, construct=f"expression returned by {fname}", entry=entry, config=res.config,
               msg=f"degrees {d}; the physical law needs {want_deg}")
